@@ -272,7 +272,11 @@ struct FamOut {
 fn run_family(seed: u64, f: u64, q_per_fam: usize) -> FamOut {
     let mut out = FamOut { evals: 0, nonempty: 0, shapes: BTreeSet::new(), counts: [0; simdoc::N_ACC], by_pers: [0; 8], errs: 0, first: None, n_viol: 0, sample: None, classes: BTreeMap::new() };
     let mut rng = Rng::new(derive(seed, "c15fam", f));
-    let p = DocParams { max_nodes: 8 + rng.below(23), max_depth: 1 + rng.below(4), names: gen::NAMES_C15, max_width: 4, long_arrays: true };
+    let p = match f % 11 {
+        3 => DocParams { max_nodes: 60 + rng.below(60), max_depth: 2 + rng.below(2), names: gen::NAMES_C15, max_width: 14, long_arrays: true },
+        7 => DocParams { max_nodes: 40 + rng.below(40), max_depth: 8 + rng.below(6), names: gen::NAMES_C15, max_width: 3, long_arrays: false },
+        _ => DocParams { max_nodes: 8 + rng.below(23), max_depth: 1 + rng.below(4), names: gen::NAMES_C15, max_width: 4, long_arrays: true },
+    };
     let mut base = gen::gen_doc(&mut rng, &p);
     if f % 5 == 0 {
         base = json!({"elems": [gen::scalar(&mut rng), "a", "ab", ["a", "b"], ["x", 1, 1.0], {"a": "xay", "b": 1}], "list": ["a", "b", 1, 1.5], "x": {"a": "ab", "b": [1, 2, 3]}, "a": base});
